@@ -26,7 +26,7 @@ def is_modelled(c):
         return c.fields.get("scheme", [""])[0] == "marlin" and "beta" in c.fields
     if c.kind == "pc":
         sch = c.fields.get("scheme", [""])[0]
-        return (sch in MODELLED_PC_SCHEMES and "beta" in c.fields) or (sch in ("hyrax", "ipa", "pst13") and "refuse_kind" not in c.meta)
+        return (sch in MODELLED_PC_SCHEMES and "beta" in c.fields) or (sch in ("hyrax", "ipa", "pst13", "ligero_uni", "ligero_ml", "brakedown_ml") and "refuse_kind" not in c.meta)
     return False
 
 
